@@ -59,10 +59,28 @@ KEYS = {"noop-penalty": "lazy-noop-penalty-update-drops-heap-entry",
 
 def classify(c, verdict):
     """stable classification keys of the known witness classes (NOTES.md, proposed_findings.txt): the failing activity must
-    belong to the class, and the symptom must be the one the defect produces (never / late completion)"""
+    belong to the class, and the symptom must be one the defect produces:
+      noop-penalty: the exec never completes / completes late (remaining already 0);
+      bw-latency:   the comm never completes / completes late, or progresses while its latency is not paid with a rate the
+                    Lazy loop never refreshes (it skips heap type `latency`): work received above the link capacity, or a
+                    remaining that does not follow the kernel rate"""
     msg = verdict.split(" => ", 1)[1] if " => " in verdict else verdict
+    classes = G.witness_classes(c["line"], c["cfg"])
+    if msg.startswith("model="):
+        who = msg[len("model="):].split()[0]
+        return KEYS["bw-latency"] if "bw-latency" in classes.get(who, set()) else None
+    if msg.startswith("work received on "):
+        rid = msg.split()[3]
+        acts = {}
+        toks = c["query"].split()
+        for i, t in enumerate(toks):
+            if t == "ACT":
+                acts[toks[i + 1]] = toks[i + 4].split(",")
+        if any("bw-latency" in ks and rid in acts.get(a, []) for a, ks in classes.items()):
+            return KEYS["bw-latency"]
+        return None
     who = msg.split()[0].rstrip(":")
-    wc = G.witness_classes(c["line"], c["cfg"]).get(who, set())
+    wc = classes.get(who, set())
     if "never completed" in msg or "remaining reached 0 at" in msg:
         for k in ("noop-penalty", "bw-latency"):
             if k in wc:
@@ -137,8 +155,13 @@ def run(ctx):
         elif v.startswith("MONFAIL"):
             ctx.violation(v[:600], rec, key=classify(c, v))
         else:
-            # model and implementation differ while the monitor holds
-            ctx.broken.append({"kind": "disagree", "verdict": v[:600], "line": c["line"]})
+            # model and implementation differ while the monitor holds: a known defect class (the work received does not
+            # follow the allocated rate = the property fails), else a broken correspondence
+            key = classify(c, v)
+            if key:
+                ctx.violation(v[:600], rec, key=key)
+            else:
+                ctx.broken.append({"kind": "disagree", "verdict": v[:600], "line": c["line"]})
     ctx.cov["samples"] = [c["line"] for c in cases[:2]] + [c["line"] for c in cases[-2:]]
     ctx.cov["distribution"] = kinds
     ctx.cov["features"] = feats
